@@ -114,6 +114,9 @@ Section SpellText.
   Lemma rec_filter_spellings x y : same_step x y -> same_step (FR x) (FR y).
   Proof. intros H root lv. cbn [FiltChainAddr.nav1f]. apply flat_map_ext'. intros cu. apply H. Qed.
   (* blanks around the operator of a comparison change nothing *)
-  Lemma spaced_comparison_spellings i a o b lit : same_step (FC i o lit) (FCS i a o b lit).
+  Lemma spaced_comparison_spellings i g0 a o b g1 lit : same_step (FC i o lit) (FCS i g0 a o b g1 lit).
   Proof. intros root lv. reflexivity. Qed.
+  (* blanks inside an existence filter or its negation change nothing *)
+  Lemma spaced_filter_spellings i g0 gn g1 : same_step (FE i) (FES false g0 gn i g1) /\ same_step (FN i) (FES true g0 gn i g1).
+  Proof. split; intros root lv; reflexivity. Qed.
 End SpellText.
